@@ -121,12 +121,20 @@ def subterms(t):
 
 
 def generate(ctx, foci, k):
-    terms = {}
-    for focus in foci:
+    """One TLC run per focus, in parallel (TLC precomputes every constant definition of Grammar.tla at start-up, ~30 s each)."""
+    from concurrent.futures import ThreadPoolExecutor
+
+    def one(focus):
         cfg = os.path.join(ctx.work, f"grammar_{focus}.cfg")
         with open(cfg, "w") as f:
             f.write(f'CONSTANTS\n  Focus = "{focus}"\n  K = {k}\nINIT Init\nNEXT Next\nINVARIANT Emit\n')
-        res = tlc.run("Grammar", cfg, ctx.work, workers=8, timeout_s=900, seed=7, allow_violation=False)  # fixed: the explored space does not depend on the run seed
+        # fixed seed: the explored space does not depend on the run seed
+        return focus, cfg, tlc.run("Grammar", cfg, ctx.work, workers=2, timeout_s=1500, seed=7, allow_violation=False)
+
+    terms = {}
+    with ThreadPoolExecutor(max_workers=8) as ex:
+        results = list(ex.map(one, foci))
+    for focus, cfg, res in results:
         ctx.model(res, "Grammar", cfg, f"terms of focus {focus}")
         for p in res.printed:
             terms.setdefault(gram.render(p["t"]), p["t"])
@@ -164,7 +172,7 @@ def run(ctx):
     with ProcessPoolExecutor(max_workers=16) as ex:
         for d, tis in zip(dialects, ex.map(_time_inputs, dialects)):
             for ti in tis:
-                single = len(ti["fmt"]) <= 3
+                single = len(native_tokens(ti["sql"])) <= 1
                 if ctx.thorough or single or gram.h(ti["sql"], d, "t") % 4 == ctx.seed % 4:
                     work.append({"sql": ti["sql"], "dialect": d, "src": "time", "fmt": ti["fmt"] if not d else None, "fn": ti["fn"], "tfmt": ti["fmt"]})
     chunks = [work[i::128] for i in range(128)]
